@@ -18,6 +18,10 @@ Section World.
   | SCreate (root : path) (req : list fmt) (no_dh dr : bool) (sf : list path) (ipats : list text) (ifile : option (list text))
   | SVerify (root : path) (sf : option path) (ipats : list text)
   | SDiff (root : path) (ipats : list text)
+  | SVerifyDH (root : path) (f : option fmt) (co ro : bool) (ipats : list text)
+  | SInfo (root : path)
+  | SInfoSF (file : path) (root : option path)
+  | SFlatten (root : path)
   | SSet (p : path) (b : bytes)             (* write a file (new or existing) *)
   | SMkdir (p : path)
   | SDelete (p : path)
@@ -36,7 +40,7 @@ Section World.
         let '(sub', o) := f sub in
         (alter C root (fun _ => Some sub') t,
          mkObs (o_outcome o) (map (fun x => (root ++ fst x, snd x)) (o_written o)) (o_missing o) (o_mismatch o) (o_new o)
-               (map (fun x => (fst x, root ++ snd x)) (o_ops o)) (o_info o))
+               (map (fun x => (fst x, root ++ snd x)) (o_ops o)) (o_info o) (o_dh o))
     | None => (t, obs_exit 2)                 (* click: path does not exist *)
     end.
 
@@ -45,6 +49,17 @@ Section World.
                         | Some (Dir (Some hh) kids) => Some (Dir (Some (f hh)) kids)
                         | o' => o'
                         end) t.
+
+  (* info -sf without root: the nearest enclosing folder that has an ascmhl folder *)
+  Fixpoint nearest_history_fuel (fuel : nat) (t : node) (d : path) : option path :=
+    match fuel with
+    | O => None
+    | S k => match get_hist C t d with
+             | Some _ => Some d
+             | None => match d with [] => None | _ => nearest_history_fuel k t (removelast d) end
+             end
+    end.
+  Definition nearest_history (t : node) (d : path) : option path := nearest_history_fuel (S (length d)) t d.
 
   Definition do_step (t : node) (s : step) : node * obs :=
     match s with
@@ -58,6 +73,15 @@ Section World.
         at_root root (fun sub => verify_like Hb matches C cdig false sub (option_map (strip_prefix root) sf) ipats []) t
     | SDiff root ipats =>
         at_root root (fun sub => verify_like Hb matches C cdig true sub None ipats []) t
+    | SVerifyDH root f co ro ipats =>
+        at_root root (fun sub => verify_dh Hb matches C cdig sub f co ro ipats []) t
+    | SInfo root => at_root root (fun sub => info C cdig sub) t
+    | SInfoSF file root =>
+        match (match root with Some r => Some r | None => nearest_history t (removelast file) end) with
+        | Some r => at_root r (fun sub => info_sf C cdig sub (strip_prefix r file)) t
+        | None => (t, obs_exit exit_no_history)
+        end
+    | SFlatten root => at_root root (fun sub => flatten C cdig sub [] []) t
     | SSet p b => (alter C p (fun _ => Some (File b)) t, obs_none)
     | SMkdir p => (alter C p (fun o => match o with Some x => Some x | None => Some (Dir None []) end) t, obs_none)
     | SDelete p => (alter C p (fun _ => None) t, obs_none)
